@@ -303,6 +303,115 @@ def _worker(args):
     return rep, rows
 
 
+def _directed(ctx, rep):
+    """two shapes single-fault sweeps of one commit() cannot reach:
+    (a) an interrupt delivered INSIDE the with-body, after operations were queued and before commit() was called;
+    (b) a Transaction object reused (begin() again) after an ambiguous-but-durable commit, whose next commit fails cleanly"""
+    base = scratch_dir("c04d-")
+    try:
+        # ---- (a)
+        for backend in ("local", "s3nocas"):
+            for exc in (KeyboardInterrupt, SystemExit, RuntimeError):
+                for queued in ("append", "append+delete"):
+                    env = Env(backend, os.path.join(base, f"a-{backend}-{exc.__name__}-{queued}"))
+                    try:
+                        with fakes3.NoSleep():
+                            t = tablekit.create(env.loc)
+                            t.append_records(tablekit.rows(2, start=0, tag="a"))
+                            t.append_records(tablekit.rows(2, start=10, tag="b"))
+                            victim = tablekit.data_paths(t)[0]
+                            pre = reader.view(env.store())
+                            raised = None
+                            try:
+                                with t.new_transaction() as tx:
+                                    tx.append_data(tablekit.rows(1, start=500, tag="n"))
+                                    if queued == "append+delete":
+                                        tx.delete_files(["/" + victim])
+                                    raise exc("delivered inside the with-body")
+                            except BaseException as e:      # noqa: BLE001
+                                raised = type(e).__name__
+                            rep.evaluations += 1
+                            rep.nontrivial(["c04-body", backend, exc.__name__, queued])
+                            case = {"kind": "interrupt-in-with-body", "backend": backend, "exception": exc.__name__, "queued": queued}
+                            try:
+                                v = reader.view(env.store())
+                            except reader.Broken as e:
+                                rep.violate("C04:a-retained-snapshot-is-unreadable", f"{backend}: {exc.__name__} in the with-body: {e}", case)
+                                continue
+                            if (v["rows"], len(v["snaps"])) != (pre["rows"], len(pre["snaps"])):
+                                rep.violate("C04:interrupted-with-body-committed-a-partial-transaction",
+                                            f"{backend}: {exc.__name__} raised inside the with-block (commit() never called, {raised} propagated) yet the table "
+                                            f"changed: {len(pre['rows'])}→{len(v['rows'])} rows, {len(pre['snaps'])}→{len(v['snaps'])} snapshots", case)
+                    finally:
+                        env.close()
+        # ---- (b)
+        for backend in ("s3cas", "s3nocas"):
+            for second_fault in ("manifest", "mlist", "meta"):
+                env = Env(backend, os.path.join(base, f"b-{backend}-{second_fault}"))
+                try:
+                    with fakes3.NoSleep():
+                        t = tablekit.create(env.loc)
+                        t.append_records(tablekit.rows(2, start=0, tag="a"))
+                        h = tablekit.load(env.loc)
+                        st = h.storage
+                        from ..vstore import path_class
+                        mode = {"n": 0, "what": None}
+                        saved = {}
+                        for mth in ("write_file", "write_file_cas"):
+                            if hasattr(st, mth):
+                                o = getattr(st, mth)
+                                saved[mth] = o
+
+                                def w(p_, *a_, _o=o, **k_):
+                                    cls = path_class(p_)
+                                    if mode["what"] == "hint-after" and cls == "hint" and mode["n"] == 0:
+                                        mode["n"] = 1
+                                        _o(p_, *a_, **k_)
+                                        raise Fault("injected AFTER the pointer write took effect")
+                                    if mode["what"] == cls and mode["n"] == 0:
+                                        mode["n"] = 1
+                                        raise Fault(f"injected before the {cls} write")
+                                    return _o(p_, *a_, **k_)
+                                setattr(st, mth, w)
+                        tx = h.new_transaction()
+                        tx.begin()
+                        tx.append_data(tablekit.rows(2, start=100, tag="first"))
+                        mode.update(what="hint-after", n=0)
+                        out1 = None
+                        try:
+                            tx.commit()
+                            out1 = "ok"
+                        except BaseException as e:      # noqa: BLE001
+                            out1 = type(e).__name__
+                        mid = reader.view(env.store())
+                        # the same Transaction object again
+                        out2 = None
+                        try:
+                            tx.begin()
+                            tx.append_data(tablekit.rows(1, start=200, tag="second"))
+                            mode.update(what=second_fault, n=0)
+                            tx.commit()
+                            out2 = "ok"
+                        except BaseException as e:      # noqa: BLE001
+                            out2 = type(e).__name__
+                        mode.update(what=None)
+                        rep.evaluations += 1
+                        rep.nontrivial(["c04-reuse", backend, second_fault])
+                        case = {"kind": "transaction-reused-after-ambiguous-commit", "backend": backend, "first": out1, "second_fault": second_fault, "second": out2}
+                        try:
+                            v = reader.view(env.store())
+                            if out2 != "ok" and v["rows"] != mid["rows"]:
+                                rep.violate("C04:failed-commit-changed-the-table", f"{backend}: second commit raised {out2} yet the rows changed", case)
+                        except reader.Broken as e:
+                            rep.violate("C04:a-retained-snapshot-is-unreadable",
+                                        f"{backend}: commit 1 ended {out1} with the pointer moved; the same Transaction re-begun, commit 2 failed cleanly at the "
+                                        f"{second_fault} write ({out2}); afterwards: {e}", case)
+                finally:
+                    env.close()
+    finally:
+        shutil.rmtree(base, ignore_errors=True)
+
+
 def run(ctx, model_ok):
     import concurrent.futures as cf
     rep = Report()
@@ -310,6 +419,8 @@ def run(ctx, model_ok):
                 "× {OSError before effect, non-OSError store error before effect, KeyboardInterrupt (thorough: + SystemExit), exception after effect on S3 writes/deletes} × "
                 "{local, CAS-S3, non-CAS S3}; after each: independent re-read of every retained snapshot, pre/post classification, fate of the "
                 "transaction's files, follow-up append. quick: all of local + append(ctx) on both S3 flavours; thorough: everything. "
+                "plus: an interrupt inside the with-body before commit() (3 exception types × 2 backends × 2 queued shapes); a Transaction "
+                "re-begun after an ambiguous-but-durable commit whose next commit fails cleanly (2 S3 flavours × 3 fault points). "
                 "distinct = (backend, op, style, kind, call index).")
     combos = []
     for backend in ("local", "s3cas", "s3nocas"):
@@ -323,6 +434,7 @@ def run(ctx, model_ok):
         for r, rows in ex.map(_worker, [(ctx.tier, ctx.seed, ctx.intensify, b, o, s_, model_ok) for b, o, s_ in combos]):
             rep.merge(r)
             model_rows += rows
+    _directed(ctx, rep)
     rep.exhaustive = True
     if model_ok and model_rows:
         replies = driver.ask([r for r, _i, _c in model_rows])
